@@ -29,3 +29,92 @@ pub fn opts_custom(prefix: &str, text_id: &str, derive: &str, sort_by_name: bool
         sort: if sort_by_name { SortBy::XmlName } else { SortBy::Unsorted },
     }
 }
+
+/// BufRead that hands out at most `chunk` bytes per fill_buf (C07/C11: "any buffered reader")
+pub struct Chunked<'a> {
+    pub data: &'a [u8],
+    pub pos: usize,
+    pub chunk: usize,
+}
+
+impl<'a> Chunked<'a> {
+    pub fn new(data: &'a [u8], chunk: usize) -> Self {
+        Chunked { data, pos: 0, chunk: chunk.max(1) }
+    }
+}
+
+impl<'a> std::io::Read for Chunked<'a> {
+    fn read(&mut self, buf: &mut [u8]) -> std::io::Result<usize> {
+        let n = self.chunk.min(self.data.len() - self.pos).min(buf.len());
+        buf[..n].copy_from_slice(&self.data[self.pos..self.pos + n]);
+        self.pos += n;
+        Ok(n)
+    }
+}
+
+impl<'a> std::io::BufRead for Chunked<'a> {
+    fn fill_buf(&mut self) -> std::io::Result<&[u8]> {
+        let end = (self.pos + self.chunk).min(self.data.len());
+        Ok(&self.data[self.pos..end])
+    }
+    fn consume(&mut self, amt: usize) {
+        self.pos = (self.pos + amt).min(self.data.len());
+    }
+}
+
+#[derive(Clone, Copy, Debug)]
+pub enum ReaderKind {
+    Slice,
+    /// std BufReader with this capacity
+    Buf(usize),
+    /// chunked BufRead
+    Chunk(usize),
+}
+
+#[derive(Clone, Copy, Debug)]
+pub struct ReaderCfg {
+    pub kind: ReaderKind,
+    pub expand_empty: bool,
+    pub trim_text: bool,
+    pub check_end_names: bool,
+}
+
+impl ReaderCfg {
+    pub fn default_slice() -> Self {
+        ReaderCfg { kind: ReaderKind::Slice, expand_empty: false, trim_text: false, check_end_names: true }
+    }
+}
+
+fn apply_cfg<R>(r: &mut Reader<R>, cfg: &ReaderCfg) {
+    let c = r.config_mut();
+    c.expand_empty_elements = cfg.expand_empty;
+    c.trim_text(cfg.trim_text);
+    c.check_end_names = cfg.check_end_names;
+}
+
+/// parse (first document) or extend (root given) through the configured reader
+pub fn parse_with(doc: &[u8], root: Option<Element<String>>, cfg: &ReaderCfg) -> Result<Element<String>, ParserError> {
+    macro_rules! go {
+        ($reader:expr) => {{
+            let mut reader = $reader;
+            apply_cfg(&mut reader, cfg);
+            match root {
+                None => into_struct(&mut reader),
+                Some(r) => extend_struct(&mut reader, r),
+            }
+        }};
+    }
+    match cfg.kind {
+        ReaderKind::Slice => go!(Reader::from_reader(doc)),
+        ReaderKind::Buf(n) => go!(Reader::from_reader(std::io::BufReader::with_capacity(n.max(1), doc))),
+        ReaderKind::Chunk(n) => go!(Reader::from_reader(Chunked::new(doc, n))),
+    }
+}
+
+pub fn parse_seq_with(docs: &[Vec<u8>], cfg: &ReaderCfg) -> Result<Element<String>, (usize, ParserError)> {
+    let mut root: Option<Element<String>> = None;
+    for (i, d) in docs.iter().enumerate() {
+        root = Some(parse_with(d, root.take(), cfg).map_err(|e| (i, e))?);
+    }
+    Ok(root.expect("at least one document"))
+}
